@@ -156,10 +156,11 @@ Definition sr_abort (d : dev) : dev :=
     fl_clear (upd_pt (upd_cfgt (set_step d 0) 0 0 0 0) 0 0) FLAG_TILT_IS_SET
   else d.
 Definition disarm (d : dev) : dev := upd_relay d (up_on d) (down_on d) (start_time d) (stop_time d) None (clk d) (outs d).
-(* (2) stop delay / switching the opposite output off + start delay: returns the delay in ms *)
+(* (2) stop delay / switching the opposite output off + start delay: returns the delay in ms
+   (the elapsed times are modular differences of the 32-bit counter: wrap-safe since /repo 9b9f886) *)
 Definition sr_delay (k : kcfg) (d : dev) (value : Z) (stop_delay : bool) (t : Z) : dev * Z :=
   if value =? RELAY_OFF then
-    (d, if stop_delay && (0 <? start_time d) && (stop_time d =? 0) && (start_time d <=? t)
+    (d, if stop_delay && (0 <? start_time d) && (stop_time d =? 0)
            && (u32 (t - start_time d) / 1000 <? STOP_DELAY_MS)
         then u32 (STOP_DELAY_MS - u32 (t - start_time d) / 1000 + 1) else 0)
   else
@@ -171,7 +172,7 @@ Definition sr_delay (k : kcfg) (d : dev) (value : Z) (stop_delay : bool) (t : Z)
                let d := relay_hi k d other_up false in upd_misc d (last_direction d) (now d) (clk d + REVERSE_PAUSE_US)
              else d in
     let t := if other_on then counter k d else t in
-    (d, if (start_time d =? 0) && (0 <? stop_time d) && (stop_time d <=? t)
+    (d, if (start_time d =? 0) && (0 <? stop_time d)
            && (u32 (t - stop_time d) / 1000 <? START_DELAY_MS)
         then u32 (START_DELAY_MS - u32 (t - stop_time d) / 1000 + 1) else 0).
 (* (3) arm the delayed trigger, or switch *)
@@ -302,7 +303,73 @@ Definition fb_after_pre_tilt (raw_position tilting_time full : Z) (down : bool) 
   f2Z (if down then PrimFloat.add (Z2f raw_position) q else PrimFloat.sub (Z2f raw_position) q).
 Definition fb_corr_time (x tct : Z) : Z := u32 (f2Z (PrimFloat.mul (PrimFloat.mul f_one (Z2f x)) (Z2f tct))).
 
-(* supla_esp_gpio_rs_task_processing *)
+(* supla_esp_gpio_rs_task_processing, in stages *)
+(* raw_position_after_pre_tilt, delta_pos_up, delta_pos_down *)
+Definition tp_pre (k : kcfg) (d : dev) (fo fc raw_position raw_tilt task_position task_tilt : Z) : Z * Z * Z :=
+  let ttype := k_tilt_type k in
+  let tct := k_tilt_ms k in
+  if (0 <=? task_tilt) && (ttype =? TILT_CHANGE_POSITION)
+     && ((tk_state d =? TASK_SETTING_POSITION) || (negb (task_position =? -100) && negb (task_tilt =? -100))) then
+    let down := raw_tilt <? task_tilt in
+    let delta_tilt := if down then task_tilt - raw_tilt else raw_tilt - task_tilt in
+    let tilting_time := fb_tilting_time tct delta_tilt in
+    let after := fb_after_pre_tilt raw_position tilting_time (if down then fc else fo) down in
+    let dpd0 := fb_corr_time (10000 - task_tilt) tct / fo in
+    let dpd := if 10000 <? task_position + dpd0 then 10000 - task_position else dpd0 in
+    let dpu0 := fb_corr_time task_tilt tct / fc in
+    let dpu := if task_position <? dpu0 then task_position else dpu0 in
+    (after, dpu, dpd)
+  else (raw_position, 0, 0).
+(* first step: start the movement towards the requested position *)
+Definition tp_start (k : kcfg) (d : dev) (task_position after_pre_tilt : Z) : dev :=
+  if tk_state d =? TASK_ACTIVE then
+    let d := upd_task d (tk_pos d) (tk_tilt d) (tk_dir d) TASK_SETTING_POSITION in
+    if negb (task_position =? -100) then
+      if task_position <? after_pre_tilt then
+        set_relay k (upd_task d (tk_pos d) (tk_tilt d) RELAY_UP (tk_state d)) RELAY_UP false false
+      else if after_pre_tilt <? task_position then
+        set_relay k (upd_task d (tk_pos d) (tk_tilt d) RELAY_DOWN (tk_state d)) RELAY_DOWN false false
+      else d
+    else d
+  else d.
+(* position reached or not needed: start tilting, or finish *)
+Definition tp_tilt_start (k : kcfg) (d : dev) (raw_tilt task_tilt : Z) : dev :=
+  if (tk_state d =? TASK_SETTING_POSITION) && (tk_dir d =? 0) then
+    let d := upd_task d (tk_pos d) (tk_tilt d) (tk_dir d) TASK_SETTING_TILT in
+    if (task_tilt <? raw_tilt) && negb (task_tilt =? -100) then
+      set_relay k (upd_task d (tk_pos d) (tk_tilt d) RELAY_UP (tk_state d)) RELAY_UP false false
+    else if (raw_tilt <? task_tilt) && negb (task_tilt =? -100) then
+      set_relay k (upd_task d (tk_pos d) (tk_tilt d) RELAY_DOWN (tk_state d)) RELAY_DOWN false false
+    else
+      set_relay k (upd_task d (tk_pos d) (tk_tilt d) 0 TASK_INACTIVE) RELAY_OFF false false
+  else d.
+(* in the middle of positioning: requested position reached? *)
+Definition tp_position (k : kcfg) (d : dev) (in_move : bool) (fo fc raw_position raw_tilt task_position delta_pos_up delta_pos_down : Z) : dev :=
+  let ttype := k_tilt_type k in
+  if (tk_state d =? TASK_SETTING_POSITION)
+     && (((tk_dir d =? RELAY_UP) && (raw_position <=? task_position - delta_pos_up))
+         || ((tk_dir d =? RELAY_DOWN) && (task_position + delta_pos_down <=? raw_position))) then
+    let tm := if k_margin k <? DEFAULT_MARGIN
+              then (if in_move && (k_margin k <? SENSOR_TASK_MARGIN) then SENSOR_TASK_MARGIN else k_margin k)
+              else DEFAULT_TASK_MARGIN in
+    if (raw_position =? 0) && time_margin fo (up_time d) tm then d
+    else if (raw_position =? 10000)
+            && ((ttype =? TILT_CHANGE_POSITION) || (ttype =? TILT_NOT_SUPPORTED) || (raw_tilt =? 10000))
+            && time_margin fc (down_time d) tm then d
+    else
+      let d := if ((tk_pos d =? 0)
+                   || ((tk_pos d =? 100) && ((ttype =? TILT_CHANGE_POSITION) || (ttype =? TILT_NOT_SUPPORTED) || (tk_tilt d =? 100))))
+                  && autocal_done d && in_move
+               then fl_set d FLAG_CALIBRATION_LOST else d in
+      let d := upd_task d (tk_pos d) (tk_tilt d) 0 (tk_state d) in
+      if negb (tilt_sup k) then set_relay k d RELAY_OFF false false else d
+  else d.
+(* tilting: requested tilt reached? *)
+Definition tp_tilt (k : kcfg) (d : dev) (raw_tilt task_tilt : Z) : dev :=
+  if (tk_state d =? TASK_SETTING_TILT)
+     && (((tk_dir d =? RELAY_UP) && (raw_tilt <=? task_tilt)) || ((tk_dir d =? RELAY_DOWN) && (task_tilt <=? raw_tilt))) then
+    set_relay k (upd_task d (tk_pos d) (tk_tilt d) 0 TASK_INACTIVE) RELAY_OFF false false
+  else d.
 Definition task_processing (k : kcfg) (d : dev) (in_move : bool) (fo fc : Z) : dev :=
   if (tk_state d =? TASK_INACTIVE) || (0 <? ac_step d) then d else
   if perform d then start_autocal k d else
@@ -315,70 +382,11 @@ Definition task_processing (k : kcfg) (d : dev) (in_move : bool) (fo fc : Z) : d
   let raw_tilt := if tilt d - 100 <? 0 then 0 else tilt d - 100 in
   let task_position := tk_pos d * 100 in
   let task_tilt := tk_tilt d * 100 in
-  let ttype := k_tilt_type k in
-  let tct := k_tilt_ms k in
-  let pre :=      (* (raw_position_after_pre_tilt, delta_pos_up, delta_pos_down) *)
-    if (0 <=? task_tilt) && (ttype =? TILT_CHANGE_POSITION)
-       && ((tk_state d =? TASK_SETTING_POSITION) || (negb (task_position =? -100) && negb (task_tilt =? -100))) then
-      let down := raw_tilt <? task_tilt in
-      let delta_tilt := if down then task_tilt - raw_tilt else raw_tilt - task_tilt in
-      let tilting_time := fb_tilting_time tct delta_tilt in
-      let after := fb_after_pre_tilt raw_position tilting_time (if down then fc else fo) down in
-      let dpd0 := fb_corr_time (10000 - task_tilt) tct / fo in
-      let dpd := if 10000 <? task_position + dpd0 then 10000 - task_position else dpd0 in
-      let dpu0 := fb_corr_time task_tilt tct / fc in
-      let dpu := if task_position <? dpu0 then task_position else dpu0 in
-      (after, dpu, dpd)
-    else (raw_position, 0, 0) in
-  let '(after_pre_tilt, delta_pos_up, delta_pos_down) := pre in
-  (* first step: start the movement towards the requested position *)
-  let d :=
-    if tk_state d =? TASK_ACTIVE then
-      let d := upd_task d (tk_pos d) (tk_tilt d) (tk_dir d) TASK_SETTING_POSITION in
-      if negb (task_position =? -100) then
-        if task_position <? after_pre_tilt then
-          set_relay k (upd_task d (tk_pos d) (tk_tilt d) RELAY_UP (tk_state d)) RELAY_UP false false
-        else if after_pre_tilt <? task_position then
-          set_relay k (upd_task d (tk_pos d) (tk_tilt d) RELAY_DOWN (tk_state d)) RELAY_DOWN false false
-        else d
-      else d
-    else d in
-  (* position reached or not needed: start tilting *)
-  let d :=
-    if (tk_state d =? TASK_SETTING_POSITION) && (tk_dir d =? 0) then
-      let d := upd_task d (tk_pos d) (tk_tilt d) (tk_dir d) TASK_SETTING_TILT in
-      if (task_tilt <? raw_tilt) && negb (task_tilt =? -100) then
-        set_relay k (upd_task d (tk_pos d) (tk_tilt d) RELAY_UP (tk_state d)) RELAY_UP false false
-      else if (raw_tilt <? task_tilt) && negb (task_tilt =? -100) then
-        set_relay k (upd_task d (tk_pos d) (tk_tilt d) RELAY_DOWN (tk_state d)) RELAY_DOWN false false
-      else
-        set_relay k (upd_task d (tk_pos d) (tk_tilt d) 0 TASK_INACTIVE) RELAY_OFF false false
-    else d in
-  (* in the middle of positioning *)
-  let d :=
-    if (tk_state d =? TASK_SETTING_POSITION)
-       && (((tk_dir d =? RELAY_UP) && (raw_position <=? task_position - delta_pos_up))
-           || ((tk_dir d =? RELAY_DOWN) && (task_position + delta_pos_down <=? raw_position))) then
-      let tm := if k_margin k <? DEFAULT_MARGIN
-                then (if in_move && (k_margin k <? SENSOR_TASK_MARGIN) then SENSOR_TASK_MARGIN else k_margin k)
-                else DEFAULT_TASK_MARGIN in
-      if (raw_position =? 0) && time_margin fo (up_time d) tm then d
-      else if (raw_position =? 10000)
-              && ((ttype =? TILT_CHANGE_POSITION) || (ttype =? TILT_NOT_SUPPORTED) || (raw_tilt =? 10000))
-              && time_margin fc (down_time d) tm then d
-      else
-        let d := if ((tk_pos d =? 0)
-                     || ((tk_pos d =? 100) && ((ttype =? TILT_CHANGE_POSITION) || (ttype =? TILT_NOT_SUPPORTED) || (tk_tilt d =? 100))))
-                    && autocal_done d && in_move
-                 then fl_set d FLAG_CALIBRATION_LOST else d in
-        let d := upd_task d (tk_pos d) (tk_tilt d) 0 (tk_state d) in
-        if negb (tilt_sup k) then set_relay k d RELAY_OFF false false else d
-    else d in
-  (* tilting *)
-  if (tk_state d =? TASK_SETTING_TILT)
-     && (((tk_dir d =? RELAY_UP) && (raw_tilt <=? task_tilt)) || ((tk_dir d =? RELAY_DOWN) && (task_tilt <=? raw_tilt))) then
-    set_relay k (upd_task d (tk_pos d) (tk_tilt d) 0 TASK_INACTIVE) RELAY_OFF false false
-  else d.
+  let pre := tp_pre k d fo fc raw_position raw_tilt task_position task_tilt in
+  let d := tp_start k d task_position (fst (fst pre)) in
+  let d := tp_tilt_start k d raw_tilt task_tilt in
+  let d := tp_position k d in_move fo fc raw_position raw_tilt task_position (snd (fst pre)) (snd pre) in
+  tp_tilt k d raw_tilt task_tilt.
 
 (* the 200 ms block: report + 10-minute rule *)
 Definition report_block (k : kcfg) (d : dev) (t : Z) : dev :=
